@@ -37,7 +37,10 @@ def site_id(fi, i, which):
 
 
 def raw_strategy():
-    d = st.tuples(st.integers(0, 2), st.sampled_from(["S", "S", "wrap"]), st.sampled_from(["strong", "strong", "weak"])).map(list)
+    # An input may itself define a symbol called __real_S (e.g. a fallback so that the code links
+    # without --wrap); GNU ld ignores it for references from other objects.
+    d = st.tuples(st.integers(0, 2), st.sampled_from(["S", "S", "S", "wrap", "wrap", "real"]),
+                  st.sampled_from(["strong", "strong", "weak"])).map(list)
     r = st.tuples(st.integers(0, 2), st.sampled_from(["S", "S", "wrap", "real", "real"]),
                   st.sampled_from([False, False, False, True])).map(list)
     f = st.fixed_dictionaries({
@@ -107,7 +110,8 @@ def target_of(case, f, i, which):
     if which == "S":
         return "wrap" if (wrapped and not defines_s) else "S"
     if which == "real":
-        return "S" if wrapped else "real"
+        defines_real = any(d[0] == i and d[1] == "real" for d in f["defs"])
+        return "S" if (wrapped and not defines_real) else "real"
     return "wrap"
 
 
@@ -175,6 +179,28 @@ def no_wrapper_sites(case, m):
             if wf is None:
                 out.append((site_id(fi, i, which), weak))
             elif weak and not m["loaded"][wf] and sf is not None and case["files"][sf]["kind"] == "so":
+                out.append((site_id(fi, i, which), weak))
+    return out
+
+
+KNOWN_REAL_FALLBACK = "real-ref-falls-back-to-defined-__real_S"
+
+
+def real_fallback_sites(case, m):
+    """Exact domain of the second known finding (same root cause as KNOWN_NO_WRAPPER: the override only
+    exists when its target resolves): a reference to __real_S for a wrapped S when no loaded input
+    defines S but some input defines a symbol literally called __real_S. GNU ld redirects the
+    reference to the undefined S (error if non-weak, 0 if weak); wild binds it to that __real_S."""
+    where = {(i, which): fi for fi, f in enumerate(case["files"]) for i, which, _ in f["defs"]}
+    out = []
+    for fi, f in enumerate(case["files"]):
+        if not m["loaded"][fi] or f["kind"] == "so":
+            continue
+        for i, which, weak in f["refs"]:
+            if which != "real" or target_of(case, f, i, which) != "S":
+                continue
+            sf = where.get((i, "S"))
+            if (sf is None or not m["loaded"][sf]) and (i, "real") in where:
                 out.append((site_id(fi, i, which), weak))
     return out
 
@@ -335,6 +361,8 @@ class C33(Check):
             sig = f"ref-{which}{'-in-defining-object' if defines and which == 'S' else ''}:expected-{exp_t}-got-{got_t}"
             if set(diff) <= {s for s, _ in no_wrapper_sites(case, m)}:
                 sig = KNOWN_NO_WRAPPER
+            elif set(diff) <= {s for s, _ in real_fallback_sites(case, m)}:
+                sig = KNOWN_REAL_FALLBACK
             raise Violation(sig, f"file {fi} ({f['kind']}) reference to {symname(i, which)}: statement and GNU ld bind it to "
                             f"{symname(i, exp_t)} ({m['sites'].get(s0)!r}), wild to {got!r} [{got_t}] (sites differing {diff})",
                             {"args": args, "model": m["sites"], "wild": wr.values})
@@ -351,10 +379,18 @@ class C33(Check):
             for i, which, weak in f["refs"]:
                 if not weak and m["sites"].get(site_id(fi, i, which), 0) is None:
                     strong_undef.add(site_id(fi, i, which))
-        return KNOWN_NO_WRAPPER if strong_undef and strong_undef <= known else "undefined-target-accepted"
+        if strong_undef and strong_undef <= known:
+            return KNOWN_NO_WRAPPER
+        known2 = {s for s, weak in real_fallback_sites(case, m) if not weak}
+        if strong_undef and strong_undef <= (known | known2):
+            return KNOWN_REAL_FALLBACK
+        return "undefined-target-accepted"
 
     def excluded_by_construction(self, case):
-        return KNOWN_NO_WRAPPER if no_wrapper_sites(case, model(case)) else None
+        m = model(case)
+        if no_wrapper_sites(case, m):
+            return KNOWN_NO_WRAPPER
+        return KNOWN_REAL_FALLBACK if real_fallback_sites(case, m) else None
 
     @staticmethod
     def _first_line(err):
